@@ -139,6 +139,47 @@ def own_distribution_decoders(ctx: Ctx):
            construct="MDAMDecoder._one_to_many_logits:stage-order")
 
 
+def fill_before_normalisation(ctx: Ctx):
+    """C10.e (2) the Pointer Network decoder builds its own step distribution (Decoder.recurrence returns log_p): on every path the
+    value returned is normalised AFTER the last -inf fill -- a fill written on top of log_softmax's output removes the mass of the
+    masked entries without giving it to the others, and the vector no longer sums to one."""
+    cls = ctx.repo.get_class("rl4co/models/zoo/ptrnet/decoder.py", "Decoder")
+    fi = cls.methods.get("recurrence")
+    if fi is None:
+        raise AnalysisError("ptrnet Decoder.recurrence not found")
+    ctx.fn(fi)
+    it = vg.Interp(ctx.repo, cls, inline_policy=lambda f, a: False)
+    fr = it.run_function(fi)
+    ret = fr.ret
+    items = ret.items if isinstance(ret, vg.Tup) else (list(ret.args) if isinstance(ret, vg.S) and ret.op == "tuple" else [])
+    if len(items) < 2 or not isinstance(items[1], vg.S):
+        raise AnalysisError("ptrnet Decoder.recurrence: does not return (h_out, log_p, mask)")
+
+    def is_norm(x):
+        return (x.op == "meth" and x.args[1] in ("softmax", "log_softmax")) or (nf._fn(x) or "").split(".")[-1] in ("softmax", "log_softmax")
+
+    def alts(v):
+        v = nf.strip(v)
+        if v.op in ("phi", "ifexp"):
+            return alts(v.args[1]) + alts(v.args[2])
+        return [v]
+    avs = alts(items[1])
+    bad = []
+    n_norm = 0
+    for v in avs:
+        n_norm += any(is_norm(x) for x in vg.walk(v))
+        # fills that no normalisation covers: reachable from the returned value without passing through a softmax / log_softmax
+        for x in vg.walk(v, stop=is_norm):
+            if x.op == "store" and _neg_inf(x.args[2]) and any(is_norm(y) for y in vg.walk(x.args[0])):
+                bad.append(x)
+    if not n_norm:
+        raise AnalysisError("ptrnet Decoder.recurrence: no softmax / log_softmax in the returned log_p")
+    ctx.ob("C10.e", "ptrnet.Decoder.recurrence:normalised-after-the-last-fill", not bad, fi.loc,
+           f"{len(avs)} alternative value(s) of log_p, each normalised after its last -inf fill" if not bad else
+           f"`{vg.show(bad[0], 3)[:120]}`: -inf is written on the OUTPUT of the normalisation (path mask_logits=False) and nothing re-normalises: the returned vector sums to less than one",
+           construct="ptrnet.Decoder.recurrence:fill-after-normalisation")
+
+
 OUT_OF_PLACE = {"masked_fill", "masked_scatter", "scatter", "scatter_add", "index_fill", "index_add", "index_copy", "clamp", "clamp_min", "clamp_max", "fill",
                 "where", "add", "sub", "mul", "div", "log_softmax", "softmax", "exp", "log", "neg", "nan_to_num", "masked_select", "logical_and", "logical_or", "logical_not"}
 
@@ -203,6 +244,7 @@ def shaping_settings_stored_as_given(ctx: Ctx):
 
 
 def run(ctx: Ctx):
+    fill_before_normalisation(ctx)
     no_discarded_tensor_results(ctx)
     shaping_settings_stored_as_given(ctx)
     fi = ctx.repo.get_function(DEC, "process_logits")
